@@ -231,6 +231,10 @@ BindAll(env, st, ps, vs, i) ==
 
 Apply(f, args, st, d) ==
   IF d > MaxDepth THEN ErrR(VErr("diverge", ""), st)
+  ELSE IF f.t = "bi" /\ f.n \in {"cbcall", "cbcall2"} THEN
+    \* a Go function of the host that calls its first argument with the remaining ones through an
+    \* Invoker (pooled / not pooled): by C14 this is the call itself
+    (IF Len(args) >= 1 THEN Apply(args[1], Tail(args), st, d + 1) ELSE ErrR(VErr("WrongNumberOfArgumentsError", ""), st))
   ELSE IF f.t = "bi" THEN
     CASE f.n = "int" /\ Len(args) = 1 /\ args[1].t = "str" /\ args[1].v \in DOMAIN StrToInt -> OkR(VInt(StrToInt[args[1].v]), st)
       [] f.n = "int" /\ Len(args) = 1 /\ args[1].t = "int" -> OkR(args[1], st)
